@@ -8,6 +8,7 @@ import (
 	"io"
 	"math/big"
 	"net/http"
+	"os"
 	"reflect"
 	"sort"
 	"strconv"
@@ -495,7 +496,8 @@ func (w *World) afterStep() {
 func parseResponse(buf []byte, method string) (*Response, int, bool) {
 	off := 0
 	for {
-		br := bufio.NewReader(bytes.NewReader(buf[off:]))
+		under := bytes.NewReader(buf[off:])
+		br := bufio.NewReader(under)
 		resp, err := http.ReadResponse(br, &http.Request{Method: method})
 		if err != nil {
 			return nil, 0, false
@@ -509,7 +511,8 @@ func parseResponse(buf []byte, method string) (*Response, int, bool) {
 			// body delimited by connection close: complete only at EOF; treat what we have as incomplete
 			return nil, 0, false
 		}
-		used := len(buf[off:]) - br.Buffered()
+		// bytes consumed = what bufio took from the underlying reader minus what it still holds
+		used := len(buf[off:]) - under.Len() - br.Buffered()
 		if resp.StatusCode >= 100 && resp.StatusCode < 200 {
 			off += used
 			continue
@@ -559,6 +562,11 @@ func (w *World) Run(mode string) {
 			// nothing enabled: only time can help (Shutdown polls on a timer)
 			w.IdleRounds++
 			if w.IdleRounds > 14 {
+				if os.Getenv("SIM_DEBUG") != "" {
+					for _, c := range w.Conns {
+						fmt.Fprintf(os.Stderr, "DEBUG conn %d dialed=%v sent=%d got=%d closed=%v vanished=%v buf=%d %q\n", c.ID, c.dialed, c.sent, c.got, c.closed, c.vanished, len(c.buf), string(c.buf[:min(len(c.buf), 300)]))
+					}
+				}
 				w.Stuck = true
 				w.StuckWhy = "nothing enabled and 14 s of fake time changed nothing"
 				break
